@@ -50,6 +50,39 @@ PROGRAMS = [
 ]
 
 
+# programs in which a qubit index is released and re-allocated after something was done to it through a handle that
+# outlived its owner; the freshly declared qubit must read 0 with certainty and be uncorrelated with everything else
+HCLS = "class H { public qubit q; public constructor() -> H = default; public function get() -> qubit { return this.q; } }\n"
+FRESH = [
+    ("stale-x", HCLS + "function main() -> void { qubit keep; H o = new H(); qubit al = o.q; destroy o; x(al); H p = new H(); bit z = measure p.q; echo(z); }"),
+    ("stale-x-scope", HCLS + "function mk() -> qubit { H o = new H(); return o.get(); }\nfunction main() -> void { qubit keep; qubit al = mk(); x(al); H p = new H(); bit z = measure p.q; echo(z); }"),
+    ("stale-cx", HCLS + "function main() -> void { qubit keep; h(keep); H o = new H(); qubit al = o.get(); o = null; cx(keep, al); H p = new H(); bit z = measure p.q; echo(z); bit k = measure keep; echo(k); }"),
+    ("stale-h", HCLS + "function main() -> void { H o = new H(); qubit al = o.q; destroy o; h(al); H p = new H(); H p2 = new H(); bit z = measure p.q; echo(z); }"),
+    ("plain-reuse", HCLS + "function main() -> void { qubit keep; H o = new H(); x(o.q); h(keep); cx(keep, o.q); destroy o; H p = new H(); bit z = measure p.q; echo(z); }"),
+]
+
+
+def _fresh(item):
+    name, src = item
+    runs, capped = qcheck.dfs_outcomes(src, gc="own", max_runs=32, want="amps,ops,flags,inv")
+    bad = []
+    for script, r in runs:
+        if r.crash or r.status() != "ok":
+            bad.append("status %s: %s" % (r.status(), (r.rec or {}).get("msg", r["fd2"][:300])))
+            continue
+        rec = r.rec
+        ms = [d for d in rec["draws"] if d[0] == "measure"]
+        first_line = rec["stdout"].split("\n")[0]
+        # the first measure of the program is the one on the freshly declared qubit
+        if not ms:
+            bad.append("no measurement was performed")
+        elif not ms[0][2] <= 1e-12:
+            bad.append("a freshly declared qubit (after release and reuse of its simulator index) reads 1 with probability %g" % ms[0][2])
+        elif first_line != "0":
+            bad.append("a freshly declared qubit was measured as %r" % first_line)
+    return name, src, bad, len(runs)
+
+
 def _one(item):
     name, src = item
     runs, capped = qcheck.dfs_outcomes(src, gc="own", max_runs=64, want="amps,ops,flags,inv,states")
@@ -147,6 +180,12 @@ def main(tier):
             ck.violation("eval:%s:%s" % (name, " ".join(p.split(" ")[:2])), "%s\nprogram (%s):\n%s" % (p, name, src),
                          {"tool": "vdrv", "dfs": True, "job": {"kind": "run", "opts": {"want": "amps,ops,flags,inv,states", "gc": "own", "warn": 0}, "blobs": {"src": src}}})
         ck.sample({"pass": "eval", "path": name, "program": src, "reset_pre_states": ng})
+    for name, src, bad, n in vdrv.pmap(_fresh, FRESH):
+        nruns += n
+        for p in bad:
+            ck.violation("fresh:%s:%s" % (name, " ".join(p.split(" ")[:4])), "%s\nprogram (%s):\n%s" % (p, name, src),
+                         {"tool": "vdrv", "dfs": True, "job": {"kind": "run", "opts": {"want": "amps,ops,flags,inv", "gc": "own", "warn": 0}, "blobs": {"src": src}}})
+        ck.sample({"pass": "fresh", "path": name, "program": src})
     ck.assumptions += ["the reduced state is compared as a density matrix (1e-9); branch weights are the reference Born weights of the pre-state",
                        "uniformity of the standard generator is trusted (no frequency test)"]
     ck.finish({
@@ -155,6 +194,6 @@ def main(tier):
         "traces_validated_against_impl": sum(d.get("transitions", 0) for d in res) + nruns,
         "reset_transitions_sim": sum(d.get("resets", 0) for d in res),
         "entangled_reset_transitions_sim": sum(d.get("entangled_resets", 0) for d in res),
-        "eval_programs": len(PROGRAMS), "eval_runs": nruns, "eval_resets_checked": nres,
+        "eval_programs": len(PROGRAMS) + len(FRESH), "eval_runs": nruns, "eval_resets_checked": nres,
         "runs": [{k: d.get(k) for k in ("args", "states", "transitions", "resets", "entangled_resets", "reset_draws", "capped", "max_reset_dev")} for d in res],
     }, exhaustive=not any(d.get("capped") for d in res))
